@@ -533,6 +533,10 @@ func decodeBytes(bytes []byte, veifyfn verifyFunc) (pa *Package, ptr ptypes.Dyna
 		err = errors.Errorf("Unmarshal: %w", err)
 		return
 	}
+	if pa.GetAnything() == nil {
+		err = errors.New("Unmarshal: package without a message")
+		return
+	}
 	if veifyfn != nil {
 		if err = veifyfn(pa.GetAnything().Value, pa.GetSignature()); err != nil {
 			err = errors.Errorf("veifyfn: %w", err)
